@@ -3,6 +3,7 @@ package rules
 import (
 	"go/token"
 	"go/types"
+	"sort"
 
 	"golang.org/x/tools/go/ssa"
 
@@ -57,6 +58,58 @@ func (c *Ctx) sslByte(g *ssa.Global) (byte, bool) {
 		}
 	}
 	return val, ok && n == 1
+}
+
+// sslReplies: the package-level byte slices of package wire that hold the one-byte SSL replies, identified by what
+// they are initialised to ('S', 'N'), whatever they are called.
+func (c *Ctx) sslReplies() (s, n *ssa.Global) {
+	if c.sslDone {
+		return c.sslS, c.sslN
+	}
+	c.sslDone = true
+	pkg := c.P.Scope["wire"]
+	if pkg == nil {
+		return nil, nil
+	}
+	var names []string
+	for name := range pkg.Members {
+		names = append(names, name)
+	}
+	sort.Strings(names)
+	for _, name := range names {
+		g, ok := pkg.Members[name].(*ssa.Global)
+		if !ok {
+			continue
+		}
+		pt, ok := g.Type().(*types.Pointer)
+		if !ok {
+			continue
+		}
+		sl, ok := pt.Elem().Underlying().(*types.Slice)
+		if !ok {
+			continue
+		}
+		if bt, isB := sl.Elem().Underlying().(*types.Basic); !isB || bt.Kind() != types.Uint8 {
+			continue
+		}
+		b, ok := c.sslByte(g)
+		if !ok {
+			continue
+		}
+		switch {
+		case b == 'S' && c.sslS == nil:
+			c.sslS = g
+		case b == 'N' && c.sslN == nil:
+			c.sslN = g
+		}
+	}
+	if c.sslS == nil {
+		c.sslS = c.P.Global("wire", "sslSupported")
+	}
+	if c.sslN == nil {
+		c.sslN = c.P.Global("wire", "sslUnsupported")
+	}
+	return c.sslS, c.sslN
 }
 
 // usesOf returns the instructions in blocks dominated by `from` (strictly after it in its own block) that use v.
@@ -131,7 +184,7 @@ func runC11(c *Ctx) {
 	R.Trusted = []string{"go/types + go/ssa", "crypto/tls"}
 
 	// ---------- R1
-	gs, gn := c.P.Global("wire", "sslSupported"), c.P.Global("wire", "sslUnsupported")
+	gs, gn := c.sslReplies()
 	bs, ok1 := c.sslByte(gs)
 	bn, ok2 := c.sslByte(gn)
 	R.Check(ok1 && bs == 'S', "C11.R1", "sslSupported:constant-S", "-", "the positive SSL reply is the single byte 'S', never reassigned", "initialised once to a 1-byte literal 'S'", sprintf("sslSupported is not a write-once 1-byte 'S' (resolved=%v value=%q)", ok1, bs))
@@ -894,4 +947,9 @@ func (c *Ctx) certGuards(fn *ssa.Function, depth int) (cfgNonNil, certsNonEmpty 
 		}
 	}
 	return
+}
+
+func (c *Ctx) isSSLReply(g *ssa.Global) bool {
+	gs, gn := c.sslReplies()
+	return g != nil && (g == gs || g == gn)
 }
